@@ -86,7 +86,6 @@ def decode(val: t.Any, *, encoding: str = constants.DEFAULT_ENCODING) -> t.Any:
     return val
 
 
-@compat.lru_cache(maxsize=100_000)
 def isoformat(dt: datetime.date | datetime.time | datetime.timedelta) -> str:
     """Format any date/time object into an ISO-8601 string.
 
@@ -110,7 +109,14 @@ def isoformat(dt: datetime.date | datetime.time | datetime.timedelta) -> str:
         'PT1H'
     """
     if isinstance(dt, (datetime.date, datetime.time)):
+        # Not memoized: the same instant at two different UTC offsets compares (and
+        # hashes) equal, so a cache would answer with the offset it happened to see first.
         return dt.isoformat()
+    return _isoformat_duration(dt)
+
+
+@compat.lru_cache(maxsize=100_000)
+def _isoformat_duration(dt: datetime.timedelta) -> str:
     dur: pendulum.Duration = (
         dt
         if isinstance(dt, pendulum.Duration)
